@@ -419,7 +419,8 @@ def HandlerOK (h : Handler) (cfgs : List STCfg) (c : STCfg) : Prop :=
     c.subscribed ev.e = true → h c live (mkMsg c hub ev) = specOutcome c hub.live ev
 
 /-- a decorator without expression only reacts to its any-change forms (true without `watch=` unless an any-change
-name ends in `.old`) – the fragment on which the new subsystem's `_is_trig_ok` default does not matter -/
+name ends in `.old`) – the fragment on which the PRE-FIX new subsystem's `_is_trig_ok` default did not matter
+(no longer needed since fix `5a43b84`; kept for `new_prefix_handlerOK`) -/
 def NoExprOK (c : STCfg) : Prop :=
   c.expr = none → ∀ ev : Ev, c.ident.any (changes ev) = true → c.anyNames.any (matchesAny ev) = true
 
@@ -435,26 +436,44 @@ theorem legacy_handle_eq (c : STCfg) (hub : Hub) (ev : Ev) (live : Store) (hsub 
   rename_i f
   cases f (Spec.env c hub.live ev) <;> simp
 
-theorem new_handle_eq (c : STCfg) (hne : NoExprOK c) (hub : Hub) (ev : Ev) (live : Store)
+theorem new_handleF_eq (fl : Bool) (c : STCfg) (hne : fl = true → NoExprOK c) (hub : Hub) (ev : Ev) (live : Store)
     (hsub : c.subscribed ev.e = true)
     (henv : envFor c (mkMsg c hub ev).vars live = Spec.env c hub.live ev) :
-    New.handle c live (mkMsg c hub ev) = specOutcome c hub.live ev := by
-  unfold New.handle New.isTrigOk specOutcome qualifies anyMatch watchedChange
+    New.handleF fl c live (mkMsg c hub ev) = specOutcome c hub.live ev := by
+  unfold New.handleF New.isTrigOk specOutcome qualifies anyMatch watchedChange
   simp only [mkMsg, identAny_eq, identChanged_eq, hsub, Bool.true_and]
   simp only [mkMsg] at henv
   simp only [henv]
-  cases hany : c.anyNames.any (matchesAny ev) <;> cases hchg : c.ident.any (changes ev) <;>
-    cases hex : c.expr <;> simp [exprTrue, hex]
-  have := hne hex ev hchg
-  rw [hany] at this
-  exact absurd this (by simp)
+  cases fl with
+  | false =>
+    cases hany : c.anyNames.any (matchesAny ev) <;> cases hchg : c.ident.any (changes ev) <;>
+      cases hex : c.expr <;> simp [exprTrue, hex]
+  | true =>
+    cases hany : c.anyNames.any (matchesAny ev) <;> cases hchg : c.ident.any (changes ev) <;>
+      cases hex : c.expr <;> simp [exprTrue, hex]
+    have := hne rfl hex ev hchg
+    rw [hany] at this
+    exact absurd this (by simp)
+
+/-- the new subsystem as it is now (after fix `5a43b84`) agrees with the spec without any side condition -/
+theorem new_handle_eq (c : STCfg) (hub : Hub) (ev : Ev) (live : Store)
+    (hsub : c.subscribed ev.e = true)
+    (henv : envFor c (mkMsg c hub ev).vars live = Spec.env c hub.live ev) :
+    New.handle c live (mkMsg c hub ev) = specOutcome c hub.live ev :=
+  new_handleF_eq false c (fun h => absurd h (by simp)) hub ev live hsub henv
 
 theorem legacy_handlerOK (cfgs : List STCfg) (c : STCfg) (wf : WfCfg c) : HandlerOK Legacy.handle cfgs c :=
   fun hub ev live hg hp hnew hsub => legacy_handle_eq c hub ev live hsub (envFor_msg wf hg hp hnew live)
 
-theorem new_handlerOK (cfgs : List STCfg) (c : STCfg) (wf : WfCfg c) (hne : NoExprOK c) :
+theorem new_handlerOK (cfgs : List STCfg) (c : STCfg) (wf : WfCfg c) :
     HandlerOK New.handle cfgs c :=
-  fun hub ev live hg hp hnew hsub => new_handle_eq c hne hub ev live hsub (envFor_msg wf hg hp hnew live)
+  fun hub ev live hg hp hnew hsub => new_handle_eq c hub ev live hsub (envFor_msg wf hg hp hnew live)
+
+/-- the pre-fix handler needed the side condition `NoExprOK` -/
+theorem new_prefix_handlerOK (cfgs : List STCfg) (c : STCfg) (wf : WfCfg c) (hne : NoExprOK c) :
+    HandlerOK New.handlePreFix cfgs c :=
+  fun hub ev live hg hp hnew hsub =>
+    new_handleF_eq true c (fun _ => hne) hub ev live hsub (envFor_msg wf hg hp hnew live)
 
 /-- the settled counterpart of `HandlerOK`: no priming, but the message is handled on the live state of its event -/
 def HandlerSettledOK (h : Handler) (cfgs : List STCfg) (c : STCfg) : Prop :=
@@ -465,9 +484,9 @@ theorem legacy_handlerSettledOK (cfgs : List STCfg) (c : STCfg) (wf : WfCfg c) :
     HandlerSettledOK Legacy.handle cfgs c :=
   fun hub ev hg hnew hsub => legacy_handle_eq c hub ev hub.live hsub (envFor_msg_settled wf hg hnew)
 
-theorem new_handlerSettledOK (cfgs : List STCfg) (c : STCfg) (wf : WfCfg c) (hne : NoExprOK c) :
+theorem new_handlerSettledOK (cfgs : List STCfg) (c : STCfg) (wf : WfCfg c) :
     HandlerSettledOK New.handle cfgs c :=
-  fun hub ev hg hnew hsub => new_handle_eq c hne hub ev hub.live hsub (envFor_msg_settled wf hg hnew)
+  fun hub ev hg hnew hsub => new_handle_eq c hub ev hub.live hsub (envFor_msg_settled wf hg hnew)
 
 theorem runsOf_logRun (i j : Nat) (o : Outcome) (log : List (Nat × Run)) :
     runsOf i (logRun j o log) = if j = i then runsOf i log ++ o.run.toList else runsOf i log := by
